@@ -4,17 +4,23 @@ from pathlib import Path
 
 ROOT = Path(__file__).resolve().parent.parent
 
-CLAIMED = {
-    "C16": dict(
-        text="Lean 4 theorems over the sequential FileCache machine: accounting invariant for every reachable state "
-             "and every legal eviction choice, refinement of every operation sequence to a finite map, table merge = "
-             "documented merge; model tied to klongpy.db by per-step correspondence (outputs + state digest + directory "
-             "contents) with the real run's eviction choice replayed and checked for legality.",
-        note="trusted: Lean kernel (axioms propext/Classical.choice/Quot.sound), correspondence harness, CPython, pickle, "
-             "pandas sort/duplicated, the file system; one client at a time (concurrency is C18); keys not path prefixes of each other",
-        technique="Lean 4 invariant + refinement proof, hand-written model, differential correspondence with replayed eviction choice",
-        design="7/C16"),
-}
+import importlib
+
+
+def _claims():
+    out = {}
+    for i in range(1, 21):
+        pid = f"C{i:02d}"
+        if not (ROOT / "vlib" / f"{pid.lower()}.py").exists():
+            continue
+        mod = importlib.import_module(f"vlib.{pid.lower()}")
+        if getattr(mod, "CLAIM", None):
+            out[pid] = dict(mod.CLAIM, modules=mod.MODULES,
+                            drivers=getattr(mod, "DRIVERS", [f"kd_{pid.lower()}"]))
+    return out
+
+
+CLAIMED = _claims()
 
 NOT_YET = {}
 
@@ -42,7 +48,7 @@ def main():
                 pid, "model and theorems not built yet in this session (planned: DESIGN.md section 7); not claimed")))
     m = dict(
         version=1,
-        setup_cmd="cd lean && lake build Klong kdriver",
+        setup_cmd="cd lean && lake build " + " ".join(sorted({t for c in CLAIMED.values() for t in c["modules"] + c["drivers"]})),
         hooks=dict(guard="KLONGPY_VERIF", enable="no hook is compiled in; harnesses interpose from outside by attribute assignment",
                    baseline_off_cmd="cd /repo && /venv/bin/python -m pytest -ra -q -p no:cacheprovider --timeout=900 --continue-on-collection-errors",
                    source_commits=[], add_only=True),
